@@ -85,7 +85,7 @@ theorem C07_degree_unchanged (δ : VName → Nat) (env : DegEnv) (e : Expr) :
 example : algPrefix "compl" 1 = 3 ∧ algPrefix "not" 1 = 3 ∧ degPrefix "compl" 1 = 3 := by decide
 
 /-! non-vacuity: `in * in` with `in` linear gets the range (2, 2), which bounds its degree 2 -/
-example : (degExpr ⟨[(⟨"in", none, none⟩, (1, 1))], [], []⟩
+example : (degExpr ⟨[(⟨"in", none, none⟩, (1, 1))], [], [], false⟩
     (.infix {} "mul" (.var { deg := some (1, 1) } ⟨"in", none, none⟩) (.var { deg := some (1, 1) } ⟨"in", none, none⟩))).1.ann.deg = some (2, 2) := by decide
 
 /-- **path level**: after any number `k` of passes over an unannotated well-formed SSA CFG, every degree
@@ -149,33 +149,60 @@ example : ∃ δ, ReachD (programOf demo) demo.params demo.isFunction δ ∧ δ 
   · simp [DState.set]
 end NonVacuity
 
-/-! ### the reading across executions fails (known finding `F-C07-control-dependence`)
+/-! ### joins decided by a signal (defect `F-C07-control-dependence`, repaired)
 
-`var x = 0; if (in == 1) { x = 1; } out <-- x`: after propagation the read of `x` behind the join is claimed `constant`
-(range `(0, 0)`).  `C07_path_sound` holds for it — in each execution the phi has the degree of one of its arguments, 0 — but
-the value of that read is 0 in one execution and 1 in another, with the same (empty) parameter valuation: as a function of the
-signal `in` it is not a constant polynomial, and the compiler rejects `out <== x`.  The property at full strength (a polynomial
-in the signals, over all executions at once) is therefore false of the model and of the code; the per-execution statement above
-is the part that is proved. -/
+`var x = 0; if (in == 1) { x = 1; } out <-- x`: until the repair the read of `x` behind the join was claimed `constant` (range
+`(0, 0)`).  `C07_path_sound` holds for it — in each execution the phi has the degree of one of its arguments, 0 — but the value
+of that read is 0 in one execution and 1 in another, with the same (empty) parameter valuation: as a function of the signal `in`
+it is not a polynomial at all, and the compiler rejects `out <== x`.  The per-execution theorem is therefore weaker than the
+property, which speaks of a polynomial in the signals over all executions at once; two independent audits found the defect
+from the property text alone.  The repair gives a phi expression a degree only when every condition that chooses between the
+paths meeting at its block (`Block.conds`: the if statements between the immediate dominator of the block and the block,
+`CfgReach.joinConds`) is known to be constant, as the code already did for the switch expression `c ? a : b`. -/
 section ControlDependence
 private def cin : VName := ⟨"in", none, none⟩
 private def cout : VName := ⟨"out", none, none⟩
 private def x0 : VName := ⟨"x", none, some 0⟩
 private def x1 : VName := ⟨"x", none, some 1⟩
 private def x2 : VName := ⟨"x", none, some 2⟩
-private def cd : Cfg := { isFunction := false, params := [], blocks := [
+private def cdBlocks (cond : Expr) (conds : List Nat) : List Block := [
   { stmts := [.decl [cin] .signal [], .decl [cout] .signal [], .decl [x0, x1, x2] .local_ [],
               .sub {} x0 (some .local_) "=" (.num {} 0),
-              .ite (.infix {} "eq" (.var {} cin) (.num {} 1))] },
+              .ite cond] },
   { stmts := [.sub {} x1 (some .local_) "=" (.num {} 1)], npreds := 1 },
   { stmts := [.sub {} x2 (some .local_) "=" (.phi {} [x0, x1]),
-              .sub {} cout (some .signal) "<--" (.var {} x2)], npreds := 2 }] }
+              .sub {} cout (some .signal) "<--" (.var {} x2)], npreds := 2, conds := conds }]
+/-- the program above as the driver hands it to the model: the join (block 2) is decided by the condition of block 0 -/
+private def cd : Cfg := { isFunction := false, params := [], blocks := cdBlocks (.infix {} "eq" (.var {} cin) (.num {} 1)) [0] }
+/-- the same program as the model saw it before the repair (no join conditions) -/
+private def cdOld : Cfg := { isFunction := false, params := [], blocks := cdBlocks (.infix {} "eq" (.var {} cin) (.num {} 1)) [] }
+/-- `if (n == 1)` with a template parameter `n` instead of the signal -/
+private def cn : VName := ⟨"n", none, some 0⟩
+private def cdParam : Cfg := { isFunction := false, params := [cn], blocks := cdBlocks (.infix {} "eq" (.var {} cn) (.num {} 1)) [0] }
 
-/-- the claim: the right-hand side `x` of `out <-- x` is annotated `constant` -/
-theorem C07_control_dependence_claim :
-    ((stmtsOf (degLoop 30 (degInit cd) cd.blocks).1).filterMap
-      (fun s => match s with | .sub _ v _ _ rhe => if v = cout then some rhe.ann.deg else none | _ => none)) = [some (0, 0)] := by
-  decide
+private def claimOf (c : Cfg) : List (Option Ir.Range) :=
+  (stmtsOf (degLoop 30 (degInit c) c.blocks).1).filterMap
+    (fun s => match s with | .sub _ v _ _ rhe => if v = cout then some rhe.ann.deg else none | _ => none)
+
+/-- a phi expression at a join that a non-constant condition decides is given no degree, whatever its arguments are -/
+theorem C07_conditional_join (env : DegEnv) (h : env.condJoin = true) (a : Ann) (args : List VName) :
+    degExpr env (.phi a args) = (.phi a args, false) := by
+  unfold degExpr; simp [h]
+
+/-- the flag is set exactly when some condition between the immediate dominator and the block has no degree yet or a degree
+    that is not constant -/
+theorem C07_join_flag (blocks : List Block) (env : DegEnv) (b : Block) :
+    (setJoin blocks env b).condJoin = true ↔ ∃ h, h ∈ b.conds ∧ condConst blocks h = false := by
+  simp [setJoin, List.any_eq_true]
+
+/-- after the repair: no claim for the read behind the join decided by the signal … -/
+theorem C07_control_dependence_repaired : claimOf cd = [none] := by decide
+
+/-- … while a join decided by a template parameter keeps its claim (the assigned values 0 and 1: constant) … -/
+theorem C07_parameter_join_keeps_claim : claimOf cdParam = [some (0, 0)] := by decide
+
+/-- … and this is what the model (and the code) claimed before the repair: `constant` -/
+theorem C07_control_dependence_claim_before_repair : claimOf cdOld = [some (0, 0)] := by decide
 
 /-- ... and two executions with the same parameters give that read different values -/
 theorem C07_reading_across_executions_fails :
@@ -183,13 +210,13 @@ theorem C07_reading_across_executions_fails :
   let σ₀ : State := fun _ => none
   have h0 : Reach 101 (stmtsOf cd.blocks) σ₀ := .init _ (fun _ _ _ _ => rfl)
   constructor
-  · have h1 := Reach.step _ _ h0 (Step.assign σ₀ {} x0 (some .local_) "=" (.num {} 0) (fun _ => none) (by simp [stmtsOf, cd]) rfl)
-    have h2 := Reach.step _ _ h1 (Step.phi _ {} x2 (some .local_) "=" {} [x0, x1] x0 (by simp [stmtsOf, cd]) (by simp))
+  · have h1 := Reach.step _ _ h0 (Step.assign σ₀ {} x0 (some .local_) "=" (.num {} 0) (fun _ => none) (by simp [stmtsOf, cd, cdBlocks]) rfl)
+    have h2 := Reach.step _ _ h1 (Step.phi _ {} x2 (some .local_) "=" {} [x0, x1] x0 (by simp [stmtsOf, cd, cdBlocks]) (by simp))
     refine ⟨_, h2, ?_⟩
     simp only [State.set_same]
     decide
-  · have h1 := Reach.step _ _ h0 (Step.assign σ₀ {} x1 (some .local_) "=" (.num {} 1) (fun _ => none) (by simp [stmtsOf, cd]) rfl)
-    have h2 := Reach.step _ _ h1 (Step.phi _ {} x2 (some .local_) "=" {} [x0, x1] x1 (by simp [stmtsOf, cd]) (by simp))
+  · have h1 := Reach.step _ _ h0 (Step.assign σ₀ {} x1 (some .local_) "=" (.num {} 1) (fun _ => none) (by simp [stmtsOf, cd, cdBlocks]) rfl)
+    have h2 := Reach.step _ _ h1 (Step.phi _ {} x2 (some .local_) "=" {} [x0, x1] x1 (by simp [stmtsOf, cd, cdBlocks]) (by simp))
     refine ⟨_, h2, ?_⟩
     simp only [State.set_same]
     decide
